@@ -26,6 +26,7 @@ func init() {
 			ruleWhoMayCall(c, "C01.7", "(*InjectorParam).Ref", "reference counts and channel flags are decided while the graph is built (Build), never while code is emitted", "(*Graph).Build")
 			ruleWhoMayCall(c, "C01.7", "(*InjectorProviderCallStmt).channelsWait", "a wait is emitted only by a provider statement for its own arguments", "(*InjectorProviderCallStmt).Stmt")
 			ruleSyncJoinsItsInputs(c, "C01.10")
+			ruleDoneCaseLeaves(c, "C01.11")
 			coRun(c, "C01.8", coRace)
 		},
 		explanation: "GS (all generator inputs, emission discipline): inside every producer statement the wait is appended before the provider call and the close after it; done-channels are declared, awaited and closed under one predicate (truth tables over the guarding atoms, exhaustively enumerated); IsWait=false implies same pool or already-provided (exhaustive table over pool indices in {-1,0,1}); InjectorParam.Ref keeps the channel flag sticky; shared variables are assigned with = whenever the injector predeclares them; each dependency edge is recorded in both directions in one block, the topological counter is len(reverseEdges); every built pool is marked processed; argument/wait collection loops have no early exit. " +
@@ -81,6 +82,7 @@ func init() {
 			ruleProviderCallOnlyInItsStatement(c, "C05.10")
 			rulePoolCountIsAntichain(c, "C05.11")
 			ruleCandidatePoolScannedWhole(c, "C05.12")
+			ruleCallerAppendsSyncPoolsOnly(c, "C05.13")
 			ruleQueueIsFIFO(c, "C05.9")
 			ruleSourcesSeededFirst(c, "C05.9")
 			ruleArgminOverCandidates(c, "C05.9")
@@ -100,6 +102,8 @@ func init() {
 			ruleLaneIntegrity(c, "C06.12")
 			ruleSameContextPredicate(c, "C06.13")
 			ruleConstQualifiersBound(c, "C06.14")
+			rulePairedEdges(c, "C06.15")
+			ruleContextInjectedOnEveryPath(c, "C06.16")
 			ruleHandlerNeverNil(c, "C06.2")
 			ruleErrorFlow(c, "C06.3", true, false, false)
 			ruleIsWaitTable(c, "C06.5")
@@ -136,6 +140,8 @@ func init() {
 			ruleDoneAndErrSameContext(c, "C07.9")
 			ruleWrapperIdentity(c, "C07.10")
 			ruleHandlerPassedUnchanged(c, "C07.11")
+			ruleDoneCaseLeaves(c, "C07.12")
+			ruleContextInjectedOnEveryPath(c, "C07.13")
 			ruleHandlerNeverNil(c, "C07.1")
 			ruleWhoMayCall(c, "C07.9", "(*InjectorParam).Ref", "reference counts and channel flags are decided while the graph is built (Build), never while code is emitted", "(*Graph).Build")
 			ruleWhoMayCall(c, "C07.9", "(*InjectorProviderCallStmt).channelsWait", "a wait is emitted only by a provider statement for its own arguments", "(*InjectorProviderCallStmt).Stmt")
@@ -164,6 +170,9 @@ func init() {
 			ruleTemplatesNotPatched(c, "C08.8")
 			ruleCallerLaneChoice(c, "C08.9")
 			ruleParamNamesWriteOnce(c, "C08.11")
+			ruleProvidedCountPerDependency(c, "C08.12")
+			ruleMatchingVisitedFreshPerRoot(c, "C08.13")
+			ruleContextInjectedOnEveryPath(c, "C08.14")
 			ruleQueueIsFIFO(c, "C08.10")
 			ruleSourcesSeededFirst(c, "C08.10")
 			ruleArgminOverCandidates(c, "C08.10")
